@@ -31,6 +31,37 @@ def dense(a):
     return np.asarray(a.toarray() if hasattr(a, "toarray") else a, dtype=complex)
 
 
+# letterwise reference (independent of the check-matrix formulas): single-site products with phases
+_L = {(0, 0): "I", (0, 1): "X", (1, 1): "Y", (1, 0): "Z"}
+_MULT = {("X", "Y"): (1j, "Z"), ("Y", "Z"): (1j, "X"), ("Z", "X"): (1j, "Y"),
+         ("Y", "X"): (-1j, "Z"), ("Z", "Y"): (-1j, "X"), ("X", "Z"): (-1j, "Y")}
+
+
+def letter_product(a, b):
+    """(phase, letters) of the product of two strings given as (z, x, q), site by site"""
+    ph = PH[a[2] % 4] * PH[b[2] % 4]
+    out = []
+    for za, xa, zb, xb in zip(a[0], a[1], b[0], b[1]):
+        la, lb = _L[(za, xa)], _L[(zb, xb)]
+        if la == "I":
+            out.append(lb)
+        elif lb == "I":
+            out.append(la)
+        elif la == lb:
+            out.append("I")
+        else:
+            f, l = _MULT[(la, lb)]
+            ph *= f
+            out.append(l)
+    return ph, "".join(out)
+
+
+def letter_commute(a, b):
+    k = sum(1 for za, xa, zb, xb in zip(a[0], a[1], b[0], b[1])
+            if (za, xa) != (0, 0) and (zb, xb) != (0, 0) and (za, xa) != (zb, xb))
+    return k % 2 == 0
+
+
 def rand_p(rng, n):
     return [rng.randint(0, 1) for _ in range(n)], [rng.randint(0, 1) for _ in range(n)], rng.randint(0, 3)
 
@@ -78,8 +109,18 @@ def run(ctx):
     for _ in range(10000 if ctx.thorough else 300):
         n = rng.randint(2, nmax)
         pairs.append((rand_p(rng, n), rand_p(rng, n)))
+    # long strings (past machine-word sizes); the differing letters are placed near the end too
+    for n in ([63, 64, 65, 70, 96, 128, 130, 200] if not ctx.thorough else [63, 64, 65, 66, 70, 96, 127, 128, 129, 130, 200, 257, 300]):
+        for _ in range(6):
+            a, b = rand_p(rng, n), rand_p(rng, n)
+            if rng.random() < 0.6:       # sparse: identity except a few sites at the far end
+                a = ([0] * n, [0] * n, a[2]); b = ([0] * n, [0] * n, b[2])
+                for i in rng.sample(range(max(0, n - 8), n), 3):
+                    a[0][i], a[1][i] = rng.choice([(0, 1), (1, 0), (1, 1)])
+                    b[0][i], b[1][i] = rng.choice([(0, 1), (1, 0), (1, 1)])
+            pairs.append((a, b))
     for a, b in pairs:
-        ctx.count("pair_n=%d" % len(a[0]))
+        ctx.count("pair_n=%d" % (len(a[0]) if len(a[0]) < 16 else 16 * (len(a[0]) // 16)))
         pa, pb = mk(*a), mk(*b)
         desc = {"kind": "pair", "a": a, "b": b}
         nt = any(a[0]) or any(a[1]) or any(b[0]) or any(b[1])
@@ -102,6 +143,13 @@ def run(ctx):
                     or not np.array_equal(dense(pa.as_matrix()), ref_matrix(*a)) or not np.array_equal(dense(pb.as_matrix()), ref_matrix(*b))
                     or not np.array_equal(dense((pa @ pb).as_matrix()), m1)):
                 ctx.fail("matmul:result-not-repeatable-or-aliased", desc, "pure function of the operands", "differs after repeated calls / editing a result")
+        # letterwise oracle (any length): product string/phase and commutation
+        ph, letters = letter_product(a, b)
+        got_letters = "".join(pr.get_pauli(i) for i in range(len(a[0])))
+        if got_letters != letters or abs(PH[pr.q % 4] - ph) > 0:
+            ctx.fail("matmul:letterwise-product-differs", desc, (str(ph), letters), (str(PH[pr.q % 4]), got_letters))
+        if bool(pa.commutes_with(pb)) != letter_commute(a, b):
+            ctx.fail("commutes_with:letterwise-wrong", desc, letter_commute(a, b), bool(pa.commutes_with(pb)))
         # oracle on the implementation (dense reference)
         if len(a[0]) <= 6:
             A, B = ref_matrix(*a), ref_matrix(*b)
@@ -318,9 +366,14 @@ def replay(ctx, data):
     if inp.get("kind") == "pair":
         a, b = inp["a"], inp["b"]
         pa, pb = PauliString(*a), PauliString(*b)
-        A, B = ref_matrix(*a), ref_matrix(*b)
-        bad |= not np.array_equal(dense((pa @ pb).as_matrix()), A @ B)
-        bad |= bool(pa.commutes_with(pb)) != np.array_equal(A @ B, B @ A)
+        pr = pa @ pb
+        ph, letters = letter_product(a, b)
+        bad |= "".join(pr.get_pauli(i) for i in range(len(a[0]))) != letters or abs(PH[pr.q % 4] - ph) > 0
+        bad |= bool(pa.commutes_with(pb)) != letter_commute(a, b)
+        if len(a[0]) <= 8:
+            A, B = ref_matrix(*a), ref_matrix(*b)
+            bad |= not np.array_equal(dense(pr.as_matrix()), A @ B)
+            bad |= bool(pa.commutes_with(pb)) != np.array_equal(A @ B, B @ A)
     elif inp.get("kind") == "single":
         a = inp["a"]
         ps = PauliString(*a)
